@@ -731,6 +731,17 @@ func (s *vScenario) observe(st *vState) *vObs {
 		sort.Ints(x.Res)
 		o.Search2 = append(o.Search2, x)
 	}
+	if len(resolvedNames) >= 3 {
+		// all tags at once: every undecided one is inlined, the alternatives multiply
+		pos, neg := []string{}, []string{}
+		for _, n := range resolvedNames {
+			pos = append(pos, vTagFilter(n, false))
+			neg = append(neg, vTagFilter(n, true))
+		}
+		search2("andall", "", "", strings.Join(pos, " "))
+		search2("orall", "", "", strings.Join(pos, " or "))
+		search2("norall", "", "", strings.Join(neg, " "))
+	}
 	for i, a := range resolvedNames {
 		search2("not", a, "", vTagFilter(a, true))
 		for j, b := range resolvedNames {
